@@ -102,7 +102,7 @@ def configurations(pid, tier, seed):
             "c_evi_then": (cfg(Dom=(2, 2), KSet={2}, MaxL=4, InKindSeq=("emb", "catp"),
                                MaxOps=2, OpSet={"evidence", "integrate", "multiply"},
                                EmitOps={2}, EmitSmall=2, **sd, **em(12)),
-                           {"targets": {"evidence", "integrate", "multiply"}}),
+                           {"targets": {"evidence", "integrate"}}),
             "d_concat": (cfg(Dom=(2, 2), KSet={1, 2}, MaxL=4, MaxBases=2, MaxIn=2,
                              InKindSeq=("emb", "catp"), MaxOps=2,
                              OpSet={"concat", "evidence"}, EmitOps={1, 2}, MaxOuts=2,
@@ -122,7 +122,7 @@ def configurations(pid, tier, seed):
                                        Scheme=3, MaxOps=3,
                                        OpSet={"conjugate", "multiply", "integrate"},
                                        EmitOps={3}, EmitSmall=2, **sd, **em(70, 4)),
-                                   {"targets": {"conjugate", "integrate", "multiply"}}),
+                                   {"targets": {"conjugate", "integrate"}}),
         }
     if pid == "C02":
         o = {"flagset": "fo4", "addressable": True}
@@ -266,6 +266,28 @@ def prod_order_sensitive(beh):
     return False
 
 
+def sem_ops(beh):
+    return ["base"] * len(beh["bases"]) + [t["op"] for t in beh["ops"]]
+
+
+def operands_closure(beh, i):
+    """pool indices (0-based) of the circuits entry i was derived from (excluding i)"""
+    nb = len(beh["bases"])
+    out, stack = set(), [i]
+    while stack:
+        j = stack.pop()
+        if j < nb:
+            continue
+        t = beh["ops"][j - nb]
+        args = [t["a"], t["b"]] if t["op"] == "multiply" else \
+            (list(t["args"]) if t["op"] == "concat" else [t["a"]])
+        for a in args:
+            if a - 1 not in out:
+                out.add(a - 1)
+                stack.append(a - 1)
+    return out
+
+
 def signature(beh, f):
     used = {j for l in beh["layers"] for j in l["ins"]}
     flags = f.get("flags") or [None, None, None]
@@ -296,6 +318,7 @@ def run(pid, tier, seed, rule, assumptions, workers=16, confs=None, extra_sig=No
         confs = configurations(pid, tier, seed)
     tags = set()
     refused = 0
+    inherited = 0
     inits = {}
     for name, (consts, opts) in confs.items():
         inv = opts.get("emit", "EmitInv")
@@ -333,10 +356,26 @@ def run(pid, tier, seed, rule, assumptions, workers=16, confs=None, extra_sig=No
             tags.update(r.get("tags", []))
             inits[r.get("init")] = inits.get(r.get("init"), 0) + 1
             unknown = []
+            targets = opts.get("targets")
+            failed_at = {}
+            for f in r["failures"]:
+                if f.get("pool") is not None:
+                    failed_at.setdefault(tuple(f.get("flags") or ()), set()).add(f["pool"])
             for f in r["failures"]:
                 if f["kind"] == "harness_error":
                     rep.machinery_errors.append(f["detail"] + f.get("trace", ""))
                     continue
+                if f.get("pool") is not None and "ops" in b and "struct" not in b:
+                    # attribution: a failure of an operator result belongs to this property only
+                    # if that operator is one of the property's targets and none of the circuits
+                    # it was derived from already fails (under the same flags, or at build time)
+                    if targets is not None and sem_ops(b)[f["pool"]] not in targets:
+                        inherited += 1
+                        continue
+                    bad = failed_at.get(tuple(f.get("flags") or ()), set()) | failed_at.get((), set())
+                    if operands_closure(b, f["pool"]) & bad:
+                        inherited += 1
+                        continue
                 sig = signature(b, f)
                 if extra_sig:
                     sig.update(extra_sig(b, f))
@@ -356,6 +395,7 @@ def run(pid, tier, seed, rule, assumptions, workers=16, confs=None, extra_sig=No
                             f"{f.get('detail', '')[:300]}")
     rep.extra["compiled_layer_tags"] = sorted(tags)
     rep.extra["operator_refusals"] = refused
+    rep.extra["failures_attributed_to_operands_or_other_properties"] = inherited
     rep.extra["initialiser_modes"] = {str(k): v for k, v in inits.items()}
     return rep.finish(rule, exhaustive=(tier == "thorough"))
 
